@@ -17,7 +17,7 @@ Proof. intros [kl key ty vi vs ch] H. simpl in *. subst. reflexivity. Qed.
 Lemma val_tf64 : forall n, n_ty n = TF64 -> val n = JF64 (n_vi n).
 Proof. intros [kl key ty vi vs ch] H. simpl in *. subst. reflexivity. Qed.
 
-Definition nsum (fo : fops) := num_sum (f_add fo) (f_of_i fo) (f_to_i fo).
+Definition nsum (fo : fops) := num_sum (f_add fo) (f_of_i fo) (f_to_i fo) (f_fits fo).
 
 (* _jbl_increment_node_data *)
 Lemma increment_spec : forall fo c v, good c -> good v ->
@@ -28,8 +28,10 @@ Lemma increment_spec : forall fo c v, good c -> good v ->
   end.
 Proof.
   intros fo [ckl ckey cty cvi cvs cch] [vkl vkey vty vvi vvs vch] [Ic Tc] [Iv Tv].
-  unfold nsum, num_sum, increment. cbn [n_ty n_vi].
+  unfold nsum, num_sum, increment, increment_v. cbn [n_ty n_vi]. change i64_fits with i64_ok.
   destruct vty; try (exfalso; apply Tv; reflexivity); destruct cty; try (exfalso; apply Tc; reflexivity);
+    cbn [val fst snd n_kl n_key]; try (split; [discriminate | reflexivity]);
+    repeat match goal with |- context [if ?b then _ else _] => destruct b end;
     cbn [val fst snd n_kl n_key]; try (split; [discriminate | reflexivity]);
     (split; [reflexivity|]; split; [reflexivity|]; split; [|split; reflexivity]; split; [|discriminate]; simpl in *; tauto).
 Qed.
@@ -41,10 +43,9 @@ Definition ext_inc_alt (fo : fops) (dv : jval) (p : list sseg) (x : jval) : opti
   | None => None
   end.
 Lemma ext_increment_alt : forall fo dv p x,
-  ext_increment lenient (f_add fo) (f_of_i fo) (f_to_i fo) dv p x = ext_inc_alt fo dv p x.
+  ext_increment lenient (f_add fo) (f_of_i fo) (f_to_i fo) (f_fits fo) dv p x = ext_inc_alt fo dv p x.
 Proof.
-  intros fo dv p x. unfold ext_increment, ext_inc_alt, nsum, num_sum.
-  destruct (jget lenient dv p) as [a|]; [|reflexivity]. destruct a; try reflexivity; destruct x; reflexivity.
+  intros fo dv p x. reflexivity.
 Qed.
 
 Lemma set_here_step : forall n s i c x, inv n -> child_pos n s = Some i -> nth_error (n_ch n) i = Some c ->
@@ -129,7 +130,7 @@ Qed.
 (* the statement proved for EVERY operation kind: against the library's complete reading (lib_op, lenient configuration) the
    model is exact *)
 Definition lib_post (fo : fops) (t : node) (o : pop) : Prop :=
-  match lib_op lenient (f_eq fo) (f_add fo) (f_of_i fo) (f_to_i fo) (doc_val t) (sop_of o) with
+  match lib_op lenient (f_eq fo) (f_add fo) (f_of_i fo) (f_to_i fo) (f_fits fo) (doc_val t) (sop_of o) with
   | Some d' => fst (apply_op fo t o) = RcOk /\ doc_val (snd (apply_op fo t o)) = d' /\ inv (snd (apply_op fo t o))
   | None => fst (apply_op fo t o) <> RcOk /\ inv (snd (apply_op fo t o))
   end.
@@ -281,8 +282,9 @@ Proof.
   - destruct (child_pos p s) as [i|]; [|intro F; exfalso; apply F; reflexivity].
     destruct (nth_error (n_ch p) i); [intro F; exfalso; apply F; reflexivity | reflexivity].
   - destruct (is_dash s); [intro F; exfalso; apply F; reflexivity|].
-    destruct ((sw 32 (atoi s) >? Z.of_nat (length (n_ch p))) || (sw 32 (atoi s) <? 0)); [reflexivity|].
-    destruct (sw 32 (atoi s) <? Z.of_nat (length (n_ch p))); intro F; exfalso; apply F; reflexivity.
+    destruct (arr_index s) as [idx|]; [|reflexivity].
+    destruct ((idx >? Z.of_nat (length (n_ch p))) || (idx <? 0)); [reflexivity|].
+    destruct (idx <? Z.of_nat (length (n_ch p))); intro F; exfalso; apply F; reflexivity.
 Qed.
 
 Lemma m_put_fail_same : forall fo k v, k <> OIncrement -> forall p n r n',
@@ -759,7 +761,10 @@ Definition swap_missing (par : node) (s : seg) : Prop :=
   match n_ty par with
   | TObj => child_pos par s = None
   | TArr => is_dash s = true \/
-            ((0 <=? sw 32 (atoi s)) && (sw 32 (atoi s) <? Z.of_nat (length (n_ch par)))) = false
+            match arr_index s with
+            | Some idx => ((0 <=? idx) && (idx <? Z.of_nat (length (n_ch par)))) = false
+            | None => True
+            end
   | _ => True
   end.
 
@@ -773,11 +778,12 @@ Proof.
   - destruct (is_dash s) eqn:D.
     + inversion E. destruct (add_item_shape n v) as [q [Q _]]. exists q. exact Q.
     + destruct M as [M|M]; [discriminate|].
-      destruct ((sw 32 (atoi s) >? Z.of_nat (length (n_ch n))) || (sw 32 (atoi s) <? 0)) eqn:B; [discriminate|].
-      destruct (sw 32 (atoi s) <? Z.of_nat (length (n_ch n))) eqn:L.
+      destruct (arr_index s) as [idx|]; [|discriminate].
+      destruct ((idx >? Z.of_nat (length (n_ch n))) || (idx <? 0)) eqn:B; [discriminate|].
+      destruct (idx <? Z.of_nat (length (n_ch n))) eqn:L.
       * exfalso. apply orb_false_iff in B. destruct B as [B1 B2].
         rewrite andb_true_r in M. apply Z.ltb_ge in B2. apply Z.leb_gt in M. lia.
-      * inversion E. destruct (add_item_shape n (set_kl v (sw 32 (atoi s)))) as [q [Q _]]. exists q. exact Q.
+      * inversion E. destruct (add_item_shape n (set_kl v idx)) as [q [Q _]]. exists q. exact Q.
 Qed.
 
 Lemma get_at_append : forall n q pos x, n_get_at n pos = Some x ->
@@ -848,16 +854,20 @@ Proof.
   - (* array *)
     assert (SK : swap_kid lenient (val par) s =
                  if is_dash s then None
-                 else if (0 <=? sw 32 (atoi s)) && (sw 32 (atoi s) <? Z.of_nat (length (n_ch par)))
-                      then Some (Z.to_nat (sw 32 (atoi s))) else None).
+                 else match arr_index s with
+                      | Some idx => if (0 <=? idx) && (idx <? Z.of_nat (length (n_ch par))) then Some (Z.to_nat idx) else None
+                      | None => None
+                      end).
     { rewrite (val_arr par T). cbn [swap_kid]. change (s_is_dash s) with (is_dash s). rewrite map_length. reflexivity. }
     destruct (is_dash s) eqn:D.
     + split; [exact L1|]. exists par. repeat split; auto. unfold swap_missing. rewrite T. left. exact D.
-    + destruct ((0 <=? sw 32 (atoi s)) && (sw 32 (atoi s) <? Z.of_nat (length (n_ch par)))) eqn:B.
+    + destruct (arr_index s) as [idx|] eqn:AI.
+      2:{ split; [exact L1|]. exists par. repeat split; auto. unfold swap_missing. rewrite T, AI. right. exact I. }
+      destruct ((0 <=? idx) && (idx <? Z.of_nat (length (n_ch par)))) eqn:B.
       * pose proof B as B0. apply andb_true_iff in B0. destruct B0 as [B1 B2]. apply Z.leb_le in B1. apply Z.ltb_lt in B2.
-        destruct (nth_error (n_ch par) (Z.to_nat (sw 32 (atoi s)))) as [c|] eqn:A; [|apply nth_error_None in A; lia].
+        destruct (nth_error (n_ch par) (Z.to_nat idx)) as [c|] eqn:A; [|apply nth_error_None in A; lia].
         split; [exact L1|]. exists par. repeat split; auto. rewrite T. reflexivity.
-      * split; [exact L1|]. exists par. repeat split; auto. unfold swap_missing. rewrite T. right. exact B.
+      * split; [exact L1|]. exists par. repeat split; auto. unfold swap_missing. rewrite T, AI. right. exact B.
 Qed.
 
 Lemma apply_swap_eq : forall fo t o, p_op o = OSwap ->
@@ -1003,7 +1013,7 @@ Proof.
   - apply op_swap; auto.
 Qed.
 
-Definition lib_prog (fo : fops) := lib_program lenient (f_eq fo) (f_add fo) (f_of_i fo) (f_to_i fo).
+Definition lib_prog (fo : fops) := lib_program lenient (f_eq fo) (f_add fo) (f_of_i fo) (f_to_i fo) (f_fits fo).
 
 Theorem apply_ops_lib : forall fo l t, Forall op_good l -> inv t ->
   match lib_prog fo (doc_val t) (map sop_of l) with
@@ -1015,7 +1025,7 @@ Proof.
   - simpl. repeat split; auto.
   - inversion HO as [|? ? G HO']; subst. unfold lib_prog in *. cbn [map lib_program apply_ops].
     pose proof (apply_op_lib fo t o H G) as P. unfold lib_post in P.
-    destruct (lib_op lenient (f_eq fo) (f_add fo) (f_of_i fo) (f_to_i fo) (doc_val t) (sop_of o)) as [d1|].
+    destruct (lib_op lenient (f_eq fo) (f_add fo) (f_of_i fo) (f_to_i fo) (f_fits fo) (doc_val t) (sop_of o)) as [d1|].
     + destruct P as [P1 [P2 P3]]. destruct (apply_op fo t o) as [r t1]. cbn [fst snd] in *. subst r d1.
       apply IH; auto.
     + destruct (apply_op fo t o) as [r t1]. cbn [fst snd] in P. destruct P as [P1 P2].
@@ -1263,39 +1273,49 @@ Proof.
       rewrite jget_cons. rewrite (lookup_set_same s y' ms y L). eapply IH. exact M.
 Qed.
 
-(* `increment` of an integer member / array element by an integer, the sum being an int64: success, and the pointer then reads
-   the exact sum *)
+(* a resolving pointer can have its value replaced *)
+Lemma set_resolves : forall p dv x y, jget lenient dv p = Some y -> p <> [] -> jmod lenient dv p (set_here lenient x) <> None.
+Proof.
+  induction p as [|s r IH]; intros dv x y JG NE; [contradiction|].
+  destruct r as [|s2 r'].
+  - cbn [jmod]. unfold set_here. cbn [jget] in JG. destruct dv as [| | | | |l|ms]; try discriminate.
+    + destruct (aidx lenient l s); [discriminate | discriminate].
+    + destruct (lookup s ms); [discriminate | discriminate].
+  - rewrite jmod_cons2. rewrite jget_cons in JG. destruct dv as [| | | | |l|ms]; try discriminate.
+    + destruct (aidx lenient l s) as [i|]; [|discriminate]. destruct (nth_error l i) as [z|]; [|discriminate].
+      pose proof (IH z x y JG ltac:(discriminate)) as Q.
+      destruct (jmod lenient z (s2 :: r') (set_here lenient x)); [discriminate | contradiction].
+    + destruct (lookup s ms) as [z|]; [|discriminate].
+      pose proof (IH z x y JG ltac:(discriminate)) as Q.
+      destruct (jmod lenient z (s2 :: r') (set_here lenient x)); [discriminate | contradiction].
+Qed.
+
+(* `increment` of an integer member / array element by an integer, for ALL integers: when the sum is an int64 the call succeeds and
+   the pointer then reads exactly a + b; otherwise the call fails (JBL_ERROR_PATCH_INVALID_VALUE) and the tree is untouched *)
 Theorem increment_int_exact : forall fo t o v a b,
   inv t -> p_op o = OIncrement -> is_root (p_path o) = false -> p_val o = Some v -> good v -> val v = JI64 b ->
-  jget lenient (val t) (p_path o) = Some (JI64 a) -> - 9223372036854775808 <= a + b < 9223372036854775808 ->
-  fst (apply_op fo t o) = RcOk /\ inv (snd (apply_op fo t o)) /\
-  jget lenient (val (snd (apply_op fo t o))) (p_path o) = Some (JI64 (a + b)).
+  jget lenient (val t) (p_path o) = Some (JI64 a) ->
+  (i64_fits (a + b) = true ->
+     fst (apply_op fo t o) = RcOk /\ inv (snd (apply_op fo t o)) /\
+     jget lenient (val (snd (apply_op fo t o))) (p_path o) = Some (JI64 (a + b))) /\
+  (i64_fits (a + b) = false -> fst (apply_op fo t o) <> RcOk /\ snd (apply_op fo t o) = t).
 Proof.
-  intros fo t o v a b H K R PV G VB J RANGE.
+  intros fo t o v a b H K R PV G VB J.
   rewrite (apply_inc_eq fo t o K), R, PV.
   pose proof (poc_inc fo v t (p_path o) G H (not_root_nonempty _ R)) as P.
   unfold ext_inc_alt in P. rewrite J, VB in P. unfold nsum, num_sum in P.
-  assert (S64 : sw 64 (a + b) = a + b).
-  { apply sw64_id. change (2 ^ 63) with 9223372036854775808. lia. }
-  rewrite S64 in P.
+  destruct (i64_fits (a + b)); (split; intro F; [|discriminate F || exact P]); try discriminate F.
   destruct (jmod lenient (val t) (p_path o) (set_here lenient (JI64 (a + b)))) as [d'|] eqn:M.
   - destruct P as [P1 [P2 [P3 _]]]. split; [exact P1|]. split; [exact P3|]. rewrite P2. eapply jget_after_set. exact M.
-  - exfalso. (* the pointer resolves, so the replacement succeeds *)
-    assert (E : forall p dv x y, jget lenient dv p = Some y -> p <> [] -> jmod lenient dv p (set_here lenient x) <> None).
-    { induction p as [|s r IH]; intros dv x y JG NE; [contradiction|].
-      destruct r as [|s2 r'].
-      - cbn [jmod]. unfold set_here. cbn [jget] in JG. destruct dv as [| | | | |l|ms]; try discriminate.
-        + destruct (aidx lenient l s); [discriminate | discriminate].
-        + destruct (lookup s ms); [discriminate | discriminate].
-      - rewrite jmod_cons2. rewrite jget_cons in JG. destruct dv as [| | | | |l|ms]; try discriminate.
-        + destruct (aidx lenient l s) as [i|]; [|discriminate]. destruct (nth_error l i) as [z|]; [|discriminate].
-          pose proof (IH z x y JG ltac:(discriminate)) as Q.
-          destruct (jmod lenient z (s2 :: r') (set_here lenient x)); [discriminate | contradiction].
-        + destruct (lookup s ms) as [z|]; [|discriminate].
-          pose proof (IH z x y JG ltac:(discriminate)) as Q.
-          destruct (jmod lenient z (s2 :: r') (set_here lenient x)); [discriminate | contradiction]. }
-    exact (E _ _ _ _ J (not_root_nonempty _ R) M).
+  - exfalso. exact (set_resolves _ _ _ _ J (not_root_nonempty _ R) M).
 Qed.
+
+(* the code before 9a2bde2 (increment_v true): INT64_MAX + 1 "succeeded" with INT64_MIN - a signed overflow in C *)
+Lemma increment_old_wraps :
+  increment_v true {| f_add := Z.add; f_of_i := fun x => x; f_to_i := fun x => x; f_eq := Z.eqb; f_fits := fun _ => true |}
+              (Node 0 [] TI64 9223372036854775807 [] []) (Node 0 [] TI64 1 [] []) =
+  (RcOk, Node 0 [] TI64 (- 9223372036854775808) [] []).
+Proof. reflexivity. Qed.
 
 (* ------------------------------------------------------------------ swap: the documented meaning *)
 Lemma lookup_pos_nth : forall s ms i, lookup_pos s ms = Some i -> lookup s ms = nth_error (map snd ms) i.
@@ -1365,11 +1385,8 @@ Qed.
 Lemma strict_step_swap_kid : forall parent s i, jstep strict parent s = Some i -> swap_kid lenient parent s = Some i.
 Proof.
   intros parent s i H. destruct parent as [| | | | |l|ms]; try discriminate; [|exact H].
-  cbn [jstep] in H. cbn [swap_kid]. unfold aidx in H. cbn [c_lenient strict c_look] in H.
-  destruct (s_is_dash s) eqn:D; [discriminate|].
-  destruct (strict_idx s) as [z|] eqn:SI; [|discriminate].
-  destruct (strict_idx_atoi s z SI) as [A [B _]].
-  cbn [c_ins lenient]. rewrite A. rewrite sw32_id by (change (2 ^ 31) with 2147483648; lia). exact H.
+  cbn [jstep] in H. cbn [swap_kid]. unfold aidx in H. cbn [strict c_look] in H.
+  destruct (s_is_dash s) eqn:D; [discriminate|]. cbn [c_ins lenient]. exact H.
 Qed.
 
 Theorem swap_documented : forall dv f path r, ext_swap strict dv f path = Some r -> lib_swap lenient dv f path = Some r.
@@ -1519,4 +1536,71 @@ Proof.
                    | Some y1 => Some (JObj (ms ++ [(s, y1)])) | None => None end
          end).
       cbn [jstep]. rewrite (lookup_none_pos s ms L). rewrite <- ext_create_fresh by discriminate. rewrite E. reflexivity.
+Qed.
+
+(* ------------------------------------------------------------------ since eca2cba: indices are read as rfc6901 reads them, so the
+   library's reading and the RFC differ ONLY at the root ("/" as the root, move / copy onto the root ignored) and for a move into
+   one's own child - everywhere else "the RFC makes it an error" and "the library reports an error" are the same thing *)
+Lemma jget_cfg_eq : forall p v, jget lenient v p = jget strict v p.
+Proof.
+  induction p as [|s r IH]; intro v; [reflexivity|]. rewrite !jget_cons. destruct v; try reflexivity.
+  - change (aidx lenient items s) with (aidx strict items s). destruct (aidx strict items s) as [i|]; [|reflexivity].
+    destruct (nth_error items i); [apply IH | reflexivity].
+  - destruct (lookup s members); [apply IH | reflexivity].
+Qed.
+Lemma jmod_cfg_eq : forall f p v, jmod lenient v p f = jmod strict v p f.
+Proof.
+  intros f. induction p as [|s r IH]; intro v; [reflexivity|].
+  destruct r as [|s2 r']; [reflexivity|]. rewrite !jmod_cons2. destruct v; try reflexivity.
+  - change (aidx lenient items s) with (aidx strict items s). destruct (aidx strict items s) as [i|]; [|reflexivity].
+    destruct (nth_error items i) as [x|]; [|reflexivity]. rewrite (IH x). reflexivity.
+  - destruct (lookup s members) as [x|]; [|reflexivity]. rewrite (IH x). reflexivity.
+Qed.
+Lemma s_add_cfg_eq : forall v p x, s_add lenient v p x = s_add strict v p x.
+Proof. intros. unfold s_add. rewrite jmod_cfg_eq. reflexivity. Qed.
+Lemma s_remove_cfg_eq : forall v p, s_remove lenient v p = s_remove strict v p.
+Proof. intros. unfold s_remove. rewrite jmod_cfg_eq. reflexivity. Qed.
+
+(* an operation that does not touch the two remaining leniencies *)
+Definition rfc_shaped (o : sop) : Prop :=
+  no_root_alias o /\ (s_op o = SMove -> forall f, s_from o = Some f -> proper_prefix f (s_path o) = false).
+
+Theorem rfc_op_lenient_is_strict : forall feq d o, rfc_shaped o -> rfc_op lenient feq d o = rfc_op strict feq d o.
+Proof.
+  intros feq d o [[NA NR] PP]. unfold rfc_op. rewrite (strict_root _ NA).
+  destruct (s_op o) eqn:K; try reflexivity.
+  - destruct (s_val o); [|reflexivity]. destruct (s_is_root strict (s_path o)); [reflexivity|].
+    destruct d; [|reflexivity]. rewrite s_add_cfg_eq. reflexivity.
+  - destruct (s_is_root strict (s_path o)); [reflexivity|]. destruct d; [|reflexivity]. rewrite s_remove_cfg_eq. reflexivity.
+  - destruct (s_val o); [|reflexivity]. destruct (s_is_root strict (s_path o)); [reflexivity|].
+    destruct d as [dv|]; [|reflexivity]. rewrite s_remove_cfg_eq. destruct (s_remove strict dv (s_path o)); [|reflexivity].
+    rewrite s_add_cfg_eq. reflexivity.
+  - assert (R : s_is_root strict (s_path o) = false).
+    { destruct (s_path o) as [|[|? ?] [|? ?]] eqn:E; try reflexivity. exfalso. apply (NR (or_intror eq_refl)). reflexivity. }
+    rewrite R. destruct (s_from o) as [f|]; [|destruct d; reflexivity]. destruct d as [dv|]; [|reflexivity].
+    rewrite jget_cfg_eq. destruct (jget strict dv f); [|reflexivity]. rewrite s_add_cfg_eq. reflexivity.
+  - assert (R : s_is_root strict (s_path o) = false).
+    { destruct (s_path o) as [|[|? ?] [|? ?]] eqn:E; try reflexivity. exfalso. apply (NR (or_introl eq_refl)). reflexivity. }
+    rewrite R. destruct (s_from o) as [f|] eqn:EF; [|destruct d; reflexivity]. destruct d as [dv|]; [|reflexivity].
+    cbn [c_lenient strict lenient negb andb]. rewrite (PP eq_refl f eq_refl).
+    rewrite jget_cfg_eq. destruct (jget strict dv f); [|reflexivity]. rewrite s_remove_cfg_eq.
+    destruct (s_remove strict dv f); [|reflexivity]. rewrite s_add_cfg_eq. reflexivity.
+  - destruct (s_val o); [|reflexivity]. destruct (s_is_root strict (s_path o)); [reflexivity|].
+    destruct d; [|reflexivity]. rewrite jget_cfg_eq. reflexivity.
+Qed.
+
+Lemma rfc_program_lenient_is_strict : forall feq l d, Forall rfc_shaped l -> rfc_program lenient feq d l = rfc_program strict feq d l.
+Proof.
+  intros feq. induction l as [|o l IH]; intros d F; [reflexivity|]. inversion F; subst. cbn [rfc_program].
+  rewrite rfc_op_lenient_is_strict by assumption. destruct (rfc_op strict feq d o); [apply IH; assumption | reflexivity].
+Qed.
+
+(* both directions against the RFC itself: the result when the RFC defines one, an error otherwise *)
+Theorem patch_program_rfc_exact : forall fo l t, ops_ok l -> Forall rfc_shaped (map sop_of l) -> klidx_inv t ->
+  match rfc_program strict (f_eq fo) (doc_val t) (map sop_of l) with
+  | Some d' => fst (apply_ops fo t l) = RcOk /\ doc_val (snd (apply_ops fo t l)) = d' /\ klidx_inv (snd (apply_ops fo t l))
+  | None => fst (apply_ops fo t l) <> RcOk /\ klidx_inv (snd (apply_ops fo t l))
+  end.
+Proof.
+  intros fo l t HO SH H. rewrite <- rfc_program_lenient_is_strict by exact SH. apply apply_ops_lenient; assumption.
 Qed.
